@@ -259,13 +259,18 @@ fn js_value_to_json_with_visited(
                             drop(obj_ref); // Release borrow before recursive calls
 
                             for (key, val) in props {
-                                let json_val = js_value_to_json_with_visited(&val, visited)?;
-                                // Skip undefined values in objects
-                                if json_val != serde_json::Value::Null
-                                    || !matches!(val, JsValue::Undefined)
-                                {
-                                    map.insert(key, json_val);
+                                // Members whose value is undefined, a symbol or a function
+                                // are omitted (SerializeJSONProperty yields undefined for them)
+                                let omitted = match &val {
+                                    JsValue::Undefined | JsValue::Symbol(_) => true,
+                                    JsValue::Object(o) => o.borrow().is_callable(),
+                                    _ => false,
+                                };
+                                if omitted {
+                                    continue;
                                 }
+                                let json_val = js_value_to_json_with_visited(&val, visited)?;
+                                map.insert(key, json_val);
                             }
                             serde_json::Value::Object(map)
                         }
